@@ -1,41 +1,106 @@
 #!/usr/bin/env python3
-"""Apply each seeded change to /repo, run the claimed checks, undo; print which checks report it.
-usage: tools/seedtest.py [seed-dir-names...] [--checks C13,C10]"""
-import json, os, subprocess, sys
+"""Run the claimed checks against every seeded change and print which checks report it.
+
+default      : each change is applied to a scratch copy of /repo's src/ + include/ (outside /repo and /verif,
+               removed afterwards); the checks run on the copy (VERIF_REPO), several changes in parallel.
+--in-repo    : the way the brief describes it: git -C /repo apply, run the checks, git -C /repo checkout -- .
+usage: tools/seedtest.py [seed-dir-names...] [--checks=C13,C10] [--jobs=4] [--in-repo]"""
+import json, os, re, shutil, subprocess, sys, tempfile
+from concurrent.futures import ThreadPoolExecutor
 V = os.path.dirname(os.path.dirname(os.path.abspath(__file__)))
 args = [a for a in sys.argv[1:] if not a.startswith('--')]
 only = None
+jobs = 4
+in_repo = '--in-repo' in sys.argv
 for a in sys.argv[1:]:
-    if a.startswith('--checks'):
+    if a.startswith('--checks='):
         only = a.split('=', 1)[1].split(',')
-seeds = args or sorted(os.listdir(os.path.join(V, 'seeded')))
-man = json.load(open(os.path.join(V, 'MANIFEST.json')))
-checks = [c['property_id'] for c in man['checks']]
-if only:
-    checks = only
-assert subprocess.run(['git', '-C', '/repo', 'status', '--porcelain', '--untracked-files=no'], capture_output=True, text=True).stdout.strip() == '', '/repo not clean'
-res = {}
-for s in seeds:
+    if a.startswith('--jobs='):
+        jobs = int(a.split('=', 1)[1])
+seeds = args or sorted(d for d in os.listdir(os.path.join(V, 'seeded')) if os.path.isdir(os.path.join(V, 'seeded', d)))
+seeds = [s for s in seeds if os.path.exists(os.path.join(V, 'seeded', s, 'patch.diff'))]
+
+
+def parse(outs):
+    per = {}
+    broken = []
+    for o in outs:
+        cur = None
+        for l in o.split('\n'):
+            m = re.match(r'VIOLATION property=(\S+)', l)
+            if m:
+                cur = m.group(1)
+                per.setdefault(cur, [])
+            elif l.startswith('  rule') and cur:
+                if len(per[cur]) < 2:
+                    per[cur].append(l.strip())
+            elif l.startswith('ANALYSIS-BROKEN'):
+                broken.append(l.strip()[:220])
+    return sorted(per.items()), broken
+
+
+def run_checks(env):
+    e = dict(os.environ)
+    e.update(env)
+    if only:
+        return [subprocess.run([os.path.join(V, 'check'), c], capture_output=True, text=True, cwd=V, env=e).stdout for c in only]
+    return [subprocess.run([os.path.join(V, 'check'), 'all'], capture_output=True, text=True, cwd=V, env=e).stdout]
+
+
+def one_scratch(s):
     d = os.path.join(V, 'seeded', s)
-    if not os.path.exists(os.path.join(d, 'patch.diff')):
-        continue
+    sc = tempfile.mkdtemp(prefix='sfverif-seed-')
+    try:
+        for sub in ('src', 'include'):
+            shutil.copytree(os.path.join('/repo', sub), os.path.join(sc, sub), symlinks=True)
+        r = subprocess.run(['git', 'apply', os.path.join(d, 'patch.diff')], capture_output=True, text=True, cwd=sc)
+        if r.returncode != 0:
+            return s, None, ['PATCH FAILED ' + r.stderr[:160]]
+        env = {'VERIF_REPO': sc, 'VERIF_COMPDB_FROM': '/repo', 'VERIF_CACHE': os.path.join(sc, '.cache'),
+               'VERIF_EVID': os.path.join(sc, 'evid')}
+        hit, broken = parse(run_checks(env))
+        return s, hit, broken
+    finally:
+        shutil.rmtree(sc, ignore_errors=True)
+
+
+def one_inrepo(s):
+    d = os.path.join(V, 'seeded', s)
     r = subprocess.run(['git', '-C', '/repo', 'apply', os.path.join(d, 'patch.diff')], capture_output=True, text=True)
     if r.returncode != 0:
-        print(s, 'PATCH FAILED', r.stderr[:200]); continue
+        return s, None, ['PATCH FAILED ' + r.stderr[:160]]
     try:
-        hit = []
-        for c in checks:
-            o = subprocess.run([os.path.join(V, 'check'), c], capture_output=True, text=True, cwd=V)
-            if o.returncode == 1 and 'VIOLATION' in o.stdout:
-                first = [l for l in o.stdout.split('\n') if l.startswith('  rule')][:2]
-                hit.append((c, first))
-            elif o.returncode == 2:
-                print('      ', c, 'ANALYSIS-BROKEN (not a detection):', o.stdout.strip()[:200])
-        res[s] = hit
-        print('%-10s %s' % (s, 'DETECTED by ' + ', '.join(c for c, _ in hit) if hit else 'missed'))
-        for c, f in hit:
-            for l in f:
-                print('      ', c, l.strip()[:260])
+        hit, broken = parse(run_checks({}))
+        return s, hit, broken
     finally:
         subprocess.run(['git', '-C', '/repo', 'checkout', '--', '.'])
-json.dump({k: [[c, f] for c, f in v] for k, v in res.items()}, open(os.path.join(V, 'seeded', 'last_results.json'), 'w'), indent=1)
+
+
+def report(s, hit, broken):
+    if hit is None:
+        print('%-10s %s' % (s, broken[0]))
+        return
+    print('%-10s %s' % (s, 'DETECTED by ' + ', '.join(c for c, _ in hit) if hit else 'missed'))
+    for c, f in hit:
+        for l in f[:1]:
+            print('      ', c, l[:240])
+    for b in broken:
+        print('      ', b, '(not a detection)')
+    sys.stdout.flush()
+
+
+res = {}
+if in_repo:
+    assert subprocess.run(['git', '-C', '/repo', 'status', '--porcelain', '--untracked-files=no'], capture_output=True, text=True).stdout.strip() == '', '/repo not clean'
+    for s in seeds:
+        s, hit, broken = one_inrepo(s)
+        report(s, hit, broken)
+        res[s] = hit
+else:
+    with ThreadPoolExecutor(max_workers=jobs) as ex:
+        for s, hit, broken in ex.map(one_scratch, seeds):
+            report(s, hit, broken)
+            res[s] = hit
+if not args and not only:
+    json.dump({k: (None if v is None else [[c, f] for c, f in v]) for k, v in res.items()},
+              open(os.path.join(V, 'seeded', 'last_results.json'), 'w'), indent=1)
